@@ -266,6 +266,21 @@ class World:
         self.stats.probes["class_defined_mid_run"] += 1
         return "ok"
 
+    def op_replace_nc(self, op: dict[str, Any]) -> str:
+        """ASTNode.replace changing only a non-comparable property: the result is another object under the SAME id"""
+        x = self.node_at(op["n"])
+        try:
+            y = x.replace(**{op["field"]: op["value"]})
+        except Exception as e:  # noqa: BLE001
+            raise SkipOp(f"replace failed {e}") from None
+        if y.id != x.id:
+            raise SkipOp("id not kept")
+        self.nodes[op["out"]] = y
+        self.builder.put(op["out"], "node", y, "m0")
+        self.builder.discover()
+        self.stats.probes["two_objects_one_id"] += 1
+        return "ok"
+
     def op_compile(self, op: dict[str, Any]) -> str:
         text, how = op["text"], op["how"]
         if how == "validate":
@@ -484,6 +499,13 @@ class Gen:
         return "c" + "abcdefghij"[self.ncap % 10] + ("_" + "klmnop"[(self.ncap // 10) % 6] if self.ncap >= 10 else "")
 
     def regex_for(self, val: Any) -> str:
+        if isinstance(val, (int, float)) and self.r("re").random() < 0.3:
+            # end-anchored numeric regexes: the same text is then met by ==-equal values that print differently
+            # (1, 1.0, True)
+            return self.r("re").choice(["[0-9]+$", "1$", "[01]$", "0$", "-?[0-9]+$", "True", "1"])
+        return self._regex_for(val)
+
+    def _regex_for(self, val: Any) -> str:
         r = self.r("regex")
         s = str(val)
         safe = re.escape(s).replace('"', ".").replace("\n", ".")
@@ -572,7 +594,7 @@ class Gen:
         else:
             clsspec = [r.choice(U.NODE_CLASSES)]
         fields = []
-        cands = [f for f in U.FIELDS[cls] if f.kind != "prop" or f.vt in ("str", "int", "optint", "op")]
+        cands = [f for f in U.FIELDS[cls] if f.kind != "prop" or f.vt in ("str", "int", "optint", "op", "float", "bool")]
         r.shuffle(cands)
         kids = [f for f in U.CHILD_FIELDS[cls] if f.kind in ("opt", "child") and is_node(getattr(x, f.name))]
         tkids = [f for f in kids if any(g.kind == "tuple" for g in U.CHILD_FIELDS[RW.cname(getattr(x, f.name))])]
@@ -738,6 +760,37 @@ class Gen:
             if f"nested{i}" in w.nodes:
                 do({"op": "match", "m": f"m{nm}", "n": {"h": f"nested{i}", "path": []}})
                 self.w.stats.probes["same_child_other_capture"] += 1
+        # script: two live objects under one id (replace of a non-comparable property) asked one after the other
+        if r.random() < 0.25:
+            fld = r.choice(["note", "tagged"])
+            v1, v2 = r.sample(["n1", "n2", "x", ""], 2)
+            do({"op": "build", "spec": {"c": "Meta", "p": {"text": r.choice(["t", "q"]), fld: v1}, "ch": {}, "o": r.choice(cfg["build"]["origins"])}, "out": "nc0"})
+            do({"op": "replace_nc", "n": {"h": "nc0", "path": []}, "field": fld, "value": v2, "out": "nc1"})
+            if "nc1" in w.nodes:
+                a0 = {"cls": ["Meta"], "fields": [[fld, {"k": "val", "v": {"t": "re", "src": re.escape(v1) + "$"}, "cap": self.newcap()}]]}
+                a1 = {"cls": ["Meta"], "fields": [["text", {"k": "exists", "cap": self.newcap()}]]}
+                nm += 1
+                do({"op": "multi", "rules": [["r0", render(a0, ws), a0], ["r1", render(a1, ws), a1]], "out": f"mm{nm}"})
+                nm += 1
+                do({"op": "compile", "how": "from_pattern", "text": render(a0, ws), "ast": a0, "out": f"m{nm}"})
+                seq = ["nc0", "nc1", "nc0"] if r.random() < 0.5 else ["nc1", "nc0", "nc1"]
+                for hn in seq:
+                    do({"op": "multimatch", "m": f"mm{nm - 1}", "n": {"h": hn, "path": []}, "rules": None})
+                for hn in seq:
+                    do({"op": "match", "m": f"m{nm}", "n": {"h": hn, "path": []}})
+        # script: one regex text met by ==-equal values that print differently (1, 1.0, True), one after the other
+        if r.random() < 0.15:
+            one = r.choice([1, 0])
+            do({"op": "build", "spec": {"c": "Vals", "p": {"s": "s", "i": one, "f": float(one), "flag": bool(one), "g": float(one), "opt": one}, "ch": {}, "o": "no"}, "out": "num0"})
+            for src in r.sample(["1$", "0$", "[0-9]+$", "True", "False", "1\\.0", "[01]$", "[0-9]"], 3):
+                flds = ["i", "f", "flag", "opt", "g"]
+                r.shuffle(flds)
+                for fld in flds[: r.choice([2, 3, 5])]:
+                    ast = {"cls": ["Vals"], "fields": [[fld, {"k": "val", "v": {"t": "re", "src": src}}]]}
+                    nm += 1
+                    do({"op": "compile", "how": "from_pattern", "text": render(ast, ws), "ast": ast, "out": f"m{nm}"})
+                    do({"op": "match", "m": f"m{nm}", "n": {"h": "num0", "path": []}})
+            self.w.stats.probes["one_regex_on_lookalike_values"] += 1
         late_at = r.randrange(cfg["nops"]) if cfg.get("late_class") else -1
         for opi in range(cfg["nops"]):
             if opi == late_at:
